@@ -19,7 +19,7 @@ if na!=2 or nb!=2:
     sys.stderr.write(f"MACHINERY: ptr16 rewrite expects exactly 2+2 cfg lines in graphics.rs, found {na}+{nb}\n"); sys.exit(2)
 s=s.replace(a,'#[cfg(any())]').replace(b,'#[cfg(all())]')
 import os
-st=os.stat(p); open(p,'w').write(s)
+st=os.stat(p); open(p,'w').write(s); os.utime(p,(st.st_atime,st.st_mtime))
 PY
 cd /verif/mc
 export CARGO_NET_OFFLINE=true RUSTFLAGS="--cfg mipidsi_verif"
